@@ -248,8 +248,10 @@ def oracle(ctx, extra):
                 doc, kind = surrogate(r), "surrogate"
             elif k < 0.85:
                 doc, kind = gen_docs.noise(r, 1, 200), "noise"
-            elif k < 0.92:
+            elif k < 0.9:
                 doc, kind = gen_docs.interaction_doc(r), "interaction"
+            elif k < 0.95:
+                doc, kind = gen_docs.directive_doc(r), "directive"
             else:
                 doc, kind = gen_docs.edge_doc(r), "edge"
             need = []
@@ -260,6 +262,8 @@ def oracle(ctx, extra):
             dist[kind] = dist.get(kind, 0) + 1
             for _ in range(2):
                 cfg = sample_cfg(r)
+                if kind == "directive" and "api" not in cfg and cfg.get("renderer") in ("html", "ast"):
+                    cfg["directives"] = {"`": "fenced", "~": "fenced", ":": "colon", ".": "rst"}[doc[0]]
                 if kind in ("edge", "showcase") and cfg.get("plugins") is not None and "api" not in cfg and cfg.get("renderer") in ("html", "ast"):
                     cfg["plugins"] = list(dict.fromkeys((need or ["abbr", "footnotes"]) + cfg["plugins"]))
                 check(w, cfg, doc, fails, limit)
